@@ -45,3 +45,8 @@ impl Cfg {
 pub fn is_used_on_rhs(cfg: &Cfg, n: &str) -> (r: bool)
     ensures r == occurs_on_rhs(cfg.pr@, n@)
 { unimplemented!() }
+
+// parol_runtime::Result / ParolError as used by generators/grammar_trans.rs (opaque error type)
+#[verifier::external_body]
+pub struct ParolError { _x: u8 }
+pub type Result<T> = std::result::Result<T, ParolError>;
